@@ -13,7 +13,14 @@ typed    : the same for the record target a user would naturally write (`typed_t
            `batch_readAs_slice`: typed items of the slice = window of the typed items of the whole array; the bulk
            read `Vec<R>` of the slice = the `ok` values of that window (or fails like its first failing item), and
            = the window of the bulk read of the whole array when that succeeds; `readAs` / the bulk loop of the model
-           on the final view reproduce both. -/
+           on the final view reproduce both.  The labels read are listed by the case (`labels`: typed, strict, wide, swap,
+           anyrec, var0, var1 — see slice.rs).
+modes    : `asm` (parent assembled over children already cut by `Array::slice`: the whole view has offsets at the inner
+           levels; `Spec.decode(whole view) = rows` checks the assembly), `rb` (the root struct over ALL columns of a
+           record batch sliced with `RecordBatch::slice`: the root reader is the dumped Struct view itself, not
+           `record fm col`), `big` (1 000 – 5 000 rows), and within `asm` the sparse unions: the Arrow-level checks as
+           for every case, then the crate must refuse the slice exactly as it refuses the whole array and as the model's
+           `new` does (theorem `new_sparse_union_fails`). -/
 namespace Driver.Suites.Slice
 open Lean Driver SaModel SaModel.Read
 
@@ -72,6 +79,11 @@ def handle (j : Json) : Except String Verdict := do
     | _ => throw "bad window"
   let mut tags : List String := [s!"backend:{backend}", s!"kind:{kind}", s!"chain:{windows.length}"]
   if (← getBool j "batch") then tags := "batch" :: tags
+  let mode := match getOpt j "mode" with | some (Json.str m) => m | _ => ""
+  let asmKind := match (getOpt j "assemble").bind (fun a => getOpt a "kind") with | some (Json.str k) => k | _ => ""
+  if mode != "" then tags := (if mode == "asm" then s!"mode:asm-{asmKind}" else s!"mode:{mode}") :: tags
+  if rows.length ≥ 1000 then tags := "rows>=1000" :: tags
+  if absO ≥ 256 then tags := "offset>=256" :: tags
   if absL == 0 then tags := "empty-window" :: tags
   if absO % 8 != 0 then tags := "inside-byte" :: tags
   -- (1) sliceView against the dumped views, step by step
@@ -99,11 +111,34 @@ def handle (j : Json) : Except String Verdict := do
   -- items
   let wholeItems := (← getArr j "whole_items").toList
   let sliceItems := (← getArr j "slice_items").toList
+  -- sparse unions: the crate's reader refuses them; the refusal must be the same for slice and whole, and the model's
+  if asmKind == "SparseUnion" then
+    let cw := wholeItems.head?.bind fun x => getOpt x "ctor"
+    let cs := sliceItems.head?.bind fun x => getOpt x "ctor"
+    match cw, cs with
+    | some w, some s_ =>
+      if w != s_ || implCls w != "err" then
+        return { agree := true, spec := [("C12", "fail"), ("C16", c16)], sig := s!"C12/sparse-refusal/{backend}/{kind}", tags := tags,
+                 why := s!"sparse union: the constructor on the slice {s_.compress.take 200} and on the whole array {w.compress.take 200} differ" }
+      if (new Fixes.all (record fm final)).cls != "err" || (new Fixes.all (record fm whole)).cls != "err" then
+        return { agree := false, spec := [("C12", "pass")], sig := s!"C12/sparse-disagree/{backend}/{kind}", tags := tags,
+                 why := "sparse union: the model's reader constructor does not refuse it" }
+      return { agree := true, spec := [("C12", "pass"), ("C16", c16)], tags := ("sparse-refused" :: tags).eraseDups }
+    | _, _ =>
+      return { agree := false, spec := [("C12", "fail"), ("C16", c16)], sig := s!"C12/sparse-accepted/{backend}/{kind}", tags := tags,
+               why := "sparse union: the crate built a reader" }
   if let some c := (sliceItems.head?.bind fun x => getOpt x "ctor") then
     return { agree := false, spec := [("C12", "fail"), ("C16", if implCls c == "panic" then "fail" else "pass")],
              sig := s!"C12/ctor/{backend}/{kind}", tags := tags, why := s!"constructor on a slice: {c.compress.take 300}" }
   let windowOfWhole := (wholeItems.drop absO).take absL
-  let rec_ := record fm final
+  -- the root struct reader: `Deserializer::new` wraps the single column; in mode `rb` the dumped Struct view is the root
+  let rec_ := if mode == "rb" then final else record fm final
+  let nrec := vlen final
+  let rd (ty : Target) (k : Nat) : Option (R DVal) := if k ≥ nrec then none else some (readAs Fixes.all ty rec_ k)
+  let rdBulk (ty : Target) : Option (R DVal) :=
+    some (do
+      let xs ← readRange (fun i => readAs Fixes.all ty rec_ i) 0 nrec
+      pure (.seq (DVals.ofList xs)))
   let mut specOk := sliceItems == windowOfWhole && sliceItems.length == absL
   let mut k := 0
   let mut agree := true
@@ -118,7 +153,7 @@ def handle (j : Json) : Except String Verdict := do
       | _ => specOk := false
     | .error _ => specOk := false
     -- … and the reader model must reproduce it
-    match compareRead (modelRead Fixes.all fm final { ty := .any, idx := k }) it with
+    match compareRead (rd .any k) it with
     | .agree => pure ()
     | .differ w => if agree then agree := false; why := s!"item {k}: {w}"
     k := k + 1
@@ -128,7 +163,11 @@ def handle (j : Json) : Except String Verdict := do
   if !agree then
     return { agree := false, spec := [("C12", "pass")], sig := s!"C12/disagree/{backend}/{kind}", tags := tags, why := why }
   -- typed reads: the natural record target (`typed`) and the same without any `Option` layer, as a tuple (`strict`)
-  for label in ["typed", "strict"] do
+  let labels := match getOpt j "labels" with
+    | some (Json.arr ls) => ls.toList.filterMap fun (l : Json) => match l with | Json.str s => some s | _ => none
+    | _ => ["typed", "strict"]
+  tags := s!"targets:{labels.length}" :: tags
+  for label in labels do
     if let some tyJ := getOpt j s!"{label}_ty" then
       let ty ← targetOfJson tyJ
       let wholeTyped := (← getArr j s!"whole_{label}").toList
@@ -141,7 +180,7 @@ def handle (j : Json) : Except String Verdict := do
       if sliceTyped.any (fun it => implCls it != "ok") then tags := s!"{label}-err" :: tags
       k := 0
       for it in sliceTyped do
-        match compareRead (modelRead Fixes.all fm final { ty := ty, idx := k }) it with
+        match compareRead (rd ty k) it with
         | .agree => pure ()
         | .differ w =>
           return { agree := false, spec := [("C12", "pass")], sig := s!"C12/{label}-disagree/{backend}/{kind}", tags := tags,
@@ -164,7 +203,7 @@ def handle (j : Json) : Except String Verdict := do
       if !bulkOk || !wholeOk then
         return { agree := true, spec := [("C12", "fail"), ("C16", c16)], sig := s!"C12/{label}-bulk/{backend}/{kind}", tags := tags,
                  why := s!"bulk {label} read of the slice (o={absO}, l={absL}) is not the window of the reads of the whole array" }
-      match compareRead (modelRead Fixes.all fm final { ty := ty, idx := 0, bulk := true }) sliceBulk with
+      match compareRead (rdBulk ty) sliceBulk with
       | .agree => pure ()
       | .differ w =>
         return { agree := false, spec := [("C12", "pass")], sig := s!"C12/{label}-bulk-disagree/{backend}/{kind}", tags := tags,
